@@ -225,6 +225,17 @@ def eval_group(env, group, tier):
                 if not ok:
                     bad = (real, got, str(float(exp)) if not isinstance(exp, int) else exp)
                     break
+            if not bad and len(names) in (1, 9):
+                # the one row carries exactly the selected columns in every format (observed through `into json`)
+                import json as _json
+                oj = env.run([q.replace(' into list', ' into json')], cwd=root)
+                try:
+                    objs = _json.loads(oj.out.decode('utf-8', 'replace'))
+                    okj = isinstance(objs, list) and len(objs) == 1 and len(objs[0]) == len(set(cols)) and sorted(objs[0].values()) == sorted(row)
+                except ValueError:
+                    okj = False
+                if not okj:
+                    bad = ('row-shape-json', oj.out[:200].decode('utf-8', 'replace'), list(row))
             if bad:
                 cls = 'wrong-' + bad[0]
                 res.update(status='viol', cls=cls, detail={'query': q, 'func': bad[0], 'got': bad[1], 'expected': bad[2], 'values': vals[:20]},
